@@ -98,10 +98,47 @@ PROGRAMS = {
         "include 'a.bare'",
         "include <b.bare>",
         "include 'c.bare'",
+        "include 'a.bare'",
         "x = 1",
         "include <d.bare>",
     ],
+    # text that only looks like layout: line-separator-like characters, runs of blanks and tabs INSIDE string literals and comments, non-ASCII names
+    'literals': [
+        "s = 'a\u2028b' + 'c\x0cd' + 'e\x85f'",
+        "# comment with \u2029 and \x0b and \x1c inside",
+        "t = 'two  blanks' + \"tab\there\" + '  lead and trail  '",
+        "function größe(höhe, linκs):",
+        "    return höhe + linκs + 'x  y'",
+        "endfunction",
+        "u = f(s, 'a  b', \"c\td\")",
+        "if t == '  ':",
+        "    u = 'in  block'",
+        "endif",
+    ],
 }
+
+
+# absolute expectations for the models of the canonical layouts (where the metamorphic relation alone would accept a consistently wrong parser)
+def absolute_problems(pname, model):
+    out = []
+    stmts = model.get('statements', []) if isinstance(model, dict) else []
+    if pname == 'literals':
+        fns = [s['function'] for s in stmts if isinstance(s, dict) and 'function' in s]
+        if not fns or fns[0].get('name') != 'größe' or fns[0].get('args') != ['höhe', 'linκs']:
+            out.append(f'the function header `function größe(höhe, linκs):` is parsed as {fns[0] if fns else None!r}'[:300])
+        first = stmts[0] if stmts else None
+        want = barefront.show(barefront.parse_expr("'a\u2028b' + 'c\x0cd' + 'e\x85f'", 0))
+        if not (isinstance(first, dict) and first.get('expr', {}).get('name') == 's' and list(first['expr'].get('expr') or ()) == ['expr', want]):
+            out.append(f'the assignment of a string with U+2028 / form feed / U+0085 inside is parsed as {first!r}'[:300])
+        n_top = len([s for s in stmts if isinstance(s, dict)])
+        if n_top < 5:
+            out.append(f'only {n_top} statements for the program "literals"')
+    if pname == 'includes':
+        incs = [s['include']['includes'] for s in stmts if isinstance(s, dict) and 'include' in s]
+        urls = [[i.get('url') for i in g] for g in incs]
+        if urls != [['a.bare', 'b.bare', 'c.bare', 'a.bare'], ['d.bare']]:
+            out.append(f'the include lines a, b, c, a / x = 1 / d are parsed as {urls!r} (a repeated include is a second include)')
+    return out
 
 
 def _classify(line):
@@ -207,7 +244,13 @@ def run_layout(repo, tier='quick', rule='E6p'):
         base_text = '\n'.join(lines) + '\n'
         base = it.parse(func, base_text)
         if base[0] != 'ok':
+            if pname == 'literals':
+                problems.append(('rejected', f'the well-formed program "literals" (string literals / comments containing U+2028, form feed, U+0085, U+2029, VT, FS; non-ASCII names) is rejected: '
+                                             f'{base[1]}{tuple(base[2][:2])!r}'[:300]))
+                continue
             raise Unrecognised(rule, f'the canonical program "{pname}" is rejected: {base[1:]!r}'[:200], mod.rel)
+        for msg in absolute_problems(pname, base[1]):
+            problems.append(('model', msg))
 
         def check(desc, src):
             nonlocal n
@@ -238,6 +281,8 @@ def run_layout(repo, tier='quick', rule='E6p'):
         check(f'"{pname}": a blank line and a comment between all lines', '\n'.join(x for ln in lines for x in (ln, '', '# c')) + '\n')
         # 4. continuation at every blank, also with a comment / blank line inside the continued line
         for ix, ln in enumerate(lines):
+            if barefront.R_COMMENT.match(ln):
+                continue          # a comment line is skipped before continuations are looked at: it cannot be continued
             cvs = continuation_variants(ln)
             if tier != 'thorough':
                 cvs = cvs[:2] + cvs[2::3]         # both spellings at the first blank, then every third variant (alternating spellings)
